@@ -88,6 +88,42 @@ def mk_case(h, units, shape=0, post=2, ldb="normal"):
     return dict(ldb=ldb, blocks=[block(k, shape) for k in range(1, h + post + 1)], n=h - 1, units=units)
 
 
+def big_case(h, units, big, skeep=None, ldb="normal"):
+    """like mk_case, but the block of height h (the one whose commit is interrupted) changes `big`
+    state keys of one contract"""
+    c = mk_case(h, units, ldb=ldb)
+    c["blocks"][h - 1]["big"] = big
+    if skeep is not None:
+        c["skeep"] = skeep
+    return c
+
+
+def big_block_cases(ctx, exe, heights, big):
+    """ties "the state batch is ONE durable unit (plus the prune batch)" to the code by an observable: the
+    number of batch commits the state store sees while ONE block is committed must be the modelled number
+    of units whatever the block size; then the process is killed after k = 0..#commits of them"""
+    out = []
+    info = {}
+    for h in heights:
+        probe = run_cases(ctx, exe, [big_case(h, 255, big)])
+        if not probe:
+            return out, info
+        observed = probe[0].get("state_commits", -1)
+        modelled = 1 + (1 if h >= 12 else 0)
+        info["h%d" % h] = dict(changed_keys=big, state_store_commits=observed, modelled_units=modelled,
+                               chain_store_commits=probe[0].get("chain_commits", -1))
+        if observed != modelled or probe[0].get("chain_commits", -1) != 1:
+            ctx.broken("tie:write-units-per-commit",
+                       "committing one block of %d changed keys at height %d issued %d state-store batch commits and %s "
+                       "chain-store commits; the model has %d state units (StateBatch%s) and 1 IndexBatch"
+                       % (big, h, observed, probe[0].get("chain_commits"), modelled, " + PruneBatch" if h >= 12 else ""))
+        for k in range(0, max(observed, 0) + 1):
+            for chain in (0, 4 + 248):
+                units = chain + (1 if k >= 1 else 0) + (2 if (k >= 2 and h >= 12) else 0)
+                out.append(big_case(h, units, big, skeep=k))
+    return out, info
+
+
 # ----------------------------------------------------------------------------- Gallina
 
 def g_lobs(x):
@@ -176,7 +212,7 @@ def shrink(ctx, exe, case, bad):
     for post in (0, 1):
         if len(cur["blocks"]) - (n + 1) > post:
             cands.append(dict(cur, blocks=cur["blocks"][:n + 1 + post]))
-    cands.append(dict(cur, blocks=[dict(b, txs=[], ic=[], tag=0) for b in cur["blocks"]]))
+    cands.append(dict(cur, blocks=[dict(b, txs=[], ic=[], tag=0) for b in cur["blocks"]]))  # (big / skeep are kept)
     for cand in cands:
         outs = run_cases(ctx, exe, [cand])
         if outs:
@@ -190,6 +226,8 @@ def decide(ctx, exe, known, case, out, v):
     vp, vm, vg = v
     u, h = case["units"], case["n"] + 1
     where = "height %d (%s) units %s leveldb_type %s" % (h, height_class(h), units_str(u), case.get("ldb", "normal"))
+    if case.get("skeep") is not None:
+        where += " (large block: the first %d state-store batch commits durable)" % case["skeep"]
     if vp[0] == 3 or vm[0] == 3:
         ctx.broken("domain:judge_crash", "case outside the model's domain: " + where)
         return "domain"
@@ -282,7 +320,9 @@ def run_inner(ctx):
                 cases.append(mk_case(h, r.choice(all_ideals(h)), shape=r.randrange(3), post=r.randrange(0, 4),
                                      ldb=r.choice(["normal", "multi"])))
                 extra += 1
-        dist = dict(corpus=ncorp, order_ideals=nideals, order_ideals_multi_leveldb=nmulti, beyond_ideals=extra, heights=heights, shapes=shapes)
+        bigs, biginfo = big_block_cases(ctx, exe, [2] if ctx.quick else [2, 13], 5000)
+        cases += bigs
+        dist = dict(corpus=ncorp, large_block_cases=len(bigs), large_block=biginfo, order_ideals=nideals, order_ideals_multi_leveldb=nmulti, beyond_ideals=extra, heights=heights, shapes=shapes)
         kinds = {}
         B = 64
         for k in range(0, len(cases), B):
@@ -298,7 +338,7 @@ def run_inner(ctx):
                 u, h = c["units"], c["n"] + 1
                 # non-trivial: something of the commit reached the disk and something did not
                 nontriv = 0 < (u & (0xfd if h < 12 else 0xff)) < (0xfd if h < 12 else 0xff)
-                ctx.count(case_key=(h, u, c.get("ldb"), json.dumps(c["blocks"], sort_keys=True)), nontrivial=nontriv,
+                ctx.count(case_key=(h, u, c.get("ldb"), c.get("skeep"), json.dumps(c["blocks"], sort_keys=True)), nontrivial=nontriv,
                           sample=dict(driver="crash", height=h, units=units_str(u), rec=o["rec"], cont=o["cont"], verdict=v))
                 d = decide(ctx, exe, known, c, o, v)
                 kinds[d] = kinds.get(d, 0) + 1
